@@ -316,11 +316,11 @@ func (eng *Engine) verifyFunc(p *packages.Package, key string) (*FuncVerifier, e
 	fv.scanAliases(fd.Body)
 	// statement-anchored ghost snapshots
 	fv.stmtSites = map[ast.Stmt]string{}
-	for _, m := range []map[string][]Clause{fv.contract.BeforeLets, fv.contract.AfterLets} {
+	for _, m := range []map[string][]Clause{fv.contract.BeforeLets, fv.contract.AfterLets, fv.contract.Befores, fv.contract.Asserts} {
 		for key := range m {
 			kind := strings.SplitN(strings.SplitN(key, "/", 2)[0], "#", 2)[0]
 			switch kind {
-			case "if", "for", "range", "switch", "select":
+			case "if", "for", "range", "switch", "select", "inc", "assign", "return":
 				if nd, ok := findNode(fd.Body, key).(ast.Stmt); ok && nd != nil {
 					fv.stmtSites[nd] = key
 				} else {
@@ -637,6 +637,10 @@ func (fv *FuncVerifier) checkPost(st *State, final []Val, at ast.Node) {
 		fv.curPos = at.Pos()
 	}
 	var errs []string
+	if fv.contract != nil && fv.contract.Flags["noalloc"] != "" {
+		// callers rely on this function allocating nothing (see callContract)
+		fv.oblige(st, "post", "[noalloc] the function allocates no object", "(= "+st.alloc+" "+fv.alloc0+")")
+	}
 	env := fv.ownEnvAt(st, &errs, fv.specPos)
 	// in postconditions parameter names denote the entry values (parameters are mutable locals in Go)
 	cur := env.resolve
@@ -920,6 +924,12 @@ func findNode(body *ast.BlockStmt, path string) ast.Node {
 				match = kind == "funclit"
 			case *ast.GoStmt:
 				match = kind == "go"
+			case *ast.IncDecStmt:
+				match = kind == "inc"
+			case *ast.AssignStmt:
+				match = kind == "assign"
+			case *ast.ReturnStmt:
+				match = kind == "return"
 			}
 			if match {
 				if n == k {
